@@ -523,12 +523,7 @@ func ruleTerminationChain(c *Ctx, pl *pipeline, rule string) {
 			continue
 		}
 		eachInstr(fn, func(ins ssa.Instruction) {
-			call, ok := ins.(*ssa.Call)
-			if !ok || !calleeIs(call.Call.StaticCallee(), "errors", "New") {
-				return
-			}
-			s, ok := constString(call.Call.Args[0])
-			if !ok || s != "done" {
+			if !producesDoneError(P, fn, ins) {
 				return
 			}
 			doneSites++
@@ -833,12 +828,7 @@ func ruleStreamTermination(c *Ctx, pl *pipeline, rule string) {
 			continue
 		}
 		eachInstr(fn, func(ins ssa.Instruction) {
-			call, ok := ins.(*ssa.Call)
-			if !ok || !calleeIs(call.Call.StaticCallee(), "errors", "New") {
-				return
-			}
-			s, ok := constString(call.Call.Args[0])
-			if !ok || s != "done" {
+			if !producesDoneError(P, fn, ins) {
 				return
 			}
 			doneSites++
@@ -854,4 +844,51 @@ func ruleStreamTermination(c *Ctx, pl *pipeline, rule string) {
 	if doneSites == 0 {
 		c.Fail(rule, "L-done:site", pl.pbGet.Pos(), "unresolved", "no errors.New(\"done\") site found")
 	}
+}
+
+// producesDoneError: ins brings a "done" error into being at run time: a call errors.New("done") outside
+// package initialisation, or a load of a package-level sentinel that initialisation assigned
+// errors.New("done") (and nothing else assigns).
+func producesDoneError(P *Prog, fn *ssa.Function, ins ssa.Instruction) bool {
+	isDoneNew := func(v ssa.Value) bool {
+		call, ok := v.(*ssa.Call)
+		if !ok || !calleeIs(call.Call.StaticCallee(), "errors", "New") {
+			return false
+		}
+		s, ok := constString(call.Call.Args[0])
+		return ok && s == "done"
+	}
+	if v, ok := ins.(ssa.Value); ok && isDoneNew(v) {
+		return !isInitFn(fn)
+	}
+	ld, ok := ins.(*ssa.UnOp)
+	if !ok || ld.Op != token.MUL {
+		return false
+	}
+	g, ok := ld.X.(*ssa.Global)
+	if !ok || g.Pkg == nil {
+		return false
+	}
+	in := g.Pkg.Func("init")
+	if in == nil {
+		return false
+	}
+	sentinel, stores := false, 0
+	check := func(f *ssa.Function) {
+		eachInstr(f, func(i2 ssa.Instruction) {
+			if st, ok := i2.(*ssa.Store); ok && st.Addr == ssa.Value(g) {
+				stores++
+				if f == in && isDoneNew(st.Val) {
+					sentinel = true
+				}
+			}
+		})
+	}
+	check(in)
+	for _, f := range P.ModFuncs() {
+		if f != in {
+			check(f)
+		}
+	}
+	return sentinel && stores == 1
 }
